@@ -21,6 +21,38 @@ use pest::prec_climber::{Assoc as CAssoc, Operator, PrecClimber};
 use pvharness::*;
 use std::collections::HashSet;
 use std::io::{self, BufWriter, Write};
+use std::sync::atomic::{AtomicBool, AtomicU64, Ordering};
+use std::sync::Mutex;
+
+// Watchdog: a mutated parser may loop forever inside one API call.  While a call into pest is in
+// flight IN_CALL is set; if the case counter does not move for 5 s the watchdog reports the case
+// as a MISMATCH line (kind spec if the property speaks about it, else model) and ends the process.
+static IN_CALL: AtomicBool = AtomicBool::new(false);
+static PROGRESS: AtomicU64 = AtomicU64::new(0);
+static CURRENT: Mutex<(String, bool)> = Mutex::new((String::new(), false));
+fn enter_case(case: &str, property_speaks: bool) {
+    { let mut c = CURRENT.lock().unwrap(); c.0.clear(); c.0.push_str(case); c.1 = property_speaks; }
+    PROGRESS.fetch_add(1, Ordering::SeqCst);
+    IN_CALL.store(true, Ordering::SeqCst);
+}
+fn leave_case() { IN_CALL.store(false, Ordering::SeqCst); }
+fn start_watchdog() {
+    std::thread::spawn(|| {
+        let mut last = u64::MAX;
+        let mut stalled = 0;
+        loop {
+            std::thread::sleep(std::time::Duration::from_millis(500));
+            let p = PROGRESS.load(Ordering::SeqCst);
+            if IN_CALL.load(Ordering::SeqCst) && p == last { stalled += 1; } else { stalled = 0; }
+            last = p;
+            if stalled >= 10 {
+                let c = CURRENT.lock().unwrap();
+                eprintln!("MISMATCH\t{}\t{}\tHANG (no return from the parser within 5 s)\ttermination", if c.1 { "spec" } else { "model" }, c.0);
+                std::process::exit(3);
+            }
+        }
+    });
+}
 
 type OpD = (u8, char);
 
@@ -213,6 +245,7 @@ impl<'a> Out<'a> {
     fn table_case(&mut self, maps: &str, decl: &[Vec<OpD>], tokens: &str, dedup: bool) {
         let m = parse_maps(maps);
         let case = format!("T;{};{};{}", maps, show_decl(decl), tokens);
+        enter_case(&case, m == (true, true, true) && is_wf(decl, tokens));
         let p = run_builder(decl, m, tokens);
         let c = run_const_macro(decl, m, tokens);
         let n = if decl.iter().map(|l| l.len()).sum::<usize>() <= 8 {
@@ -220,6 +253,7 @@ impl<'a> Out<'a> {
             run_const_array(&entries, m, tokens)
         } else { "-".to_string() };
         let k = run_climber(decl, tokens);
+        leave_case();
         self.n += 1;
         // non-trivial: a well-formed sequence with at least two operators (so that grouping is decided
         // by the binding powers) that the real PrattParser turned into a tree
@@ -236,7 +270,9 @@ impl<'a> Out<'a> {
         let m = parse_maps(maps);
         let e = entries.iter().map(|(ch, f)| format!("{}{}", show_decl(&[ch.clone()]), if *f { '+' } else { '-' })).collect::<Vec<_>>().join(",");
         let case = format!("N;{};{};{}", maps, e, tokens);
+        enter_case(&case, false);
         let n = run_const_array(entries, m, tokens);
+        leave_case();
         self.n += 1;
         writeln!(self.w, "{}\tN={}", case, n).unwrap();
     }
@@ -320,6 +356,7 @@ fn random_wf(rng: &mut Rng, decl: &[Vec<OpD>], len_lo: usize, len_hi: usize) -> 
 
 fn main() {
     quiet_panics();
+    start_watchdog();
     let mode = arg(1);
     let stdout = io::stdout();
     let mut out = Out { w: BufWriter::with_capacity(1 << 20, stdout.lock()), n: 0, nontriv: 0, seen: HashSet::new(), wf: 0, panics: 0, climber_class: 0, const_macro: 0 };
